@@ -153,6 +153,7 @@ type crashTxn struct {
 	name string
 	txn  *access.Transaction
 	n    int
+	own  []int // keys this transaction inserted itself and has not deleted
 }
 
 func crashRun(args []string) error {
@@ -178,7 +179,18 @@ func crashRun(args []string) error {
 		return fmt.Errorf("open: %s", pm)
 	}
 	rng := rand.New(rand.NewSource(envSeed()))
-	if os.Getenv("VERIF_CRASH_MODE") == "wide" {
+	if os.Getenv("VERIF_CRASH_MODE") == "big" {
+		// no index at all: an index page that is given back forces the log, and this mode needs more than one log buffer
+		// (528 KB) of records appended without any flush in between
+		cols := []*column.Column{
+			column.NewColumn("k", types.Integer, false, index_constants.IndexKindInvalid, types.PageID(-1), nil),
+			column.NewColumn("v", types.Integer, false, index_constants.IndexKindInvalid, types.PageID(-1), nil),
+			column.NewColumn("p", types.Varchar, false, index_constants.IndexKindInvalid, types.PageID(-1), nil),
+		}
+		txn := e.TM().Begin(nil)
+		e.Catalog().CreateTable(crashTable, schema.NewSchema(cols), txn)
+		e.TM().Commit(e.Catalog(), txn)
+	} else if os.Getenv("VERIF_CRASH_MODE") == "wide" {
 		// only k is indexed: the SQL form indexes every column, and three skip lists (one over 900-byte strings) keep
 		// about ten pages pinned and pin more per operation - in the 16-frame pool of this mode one restart in a few
 		// thousand then ran out of frames, which is a limit of the configuration, not a defect
@@ -271,6 +283,7 @@ func crashRun(args []string) error {
 			sql = fmt.Sprintf("INSERT INTO %s(k, v, p) VALUES (%d, %d, '%s');", crashTable, k, version, pay)
 			wev = map[string]interface{}{"ev": "Write", "t": t.name, "op": "ins", "k": k, "v": version}
 			liveKeys[k] = true
+			t.own = append(t.own, k)
 		case kind < 6: // in-place update of the version
 			k := ks[rng.Intn(len(ks))]
 			version++
@@ -287,6 +300,12 @@ func crashRun(args []string) error {
 			wev = map[string]interface{}{"ev": "Write", "t": t.name, "op": "upd", "k": k, "v": version}
 		default:
 			k := ks[rng.Intn(len(ks))]
+			if len(t.own) > 0 && rng.Intn(2) == 0 {
+				// the transaction deletes a row it inserted itself: when it is unfinished at the crash, undo meets the delete
+				// mark of a slot that the undo of the insert empties (repeated recovery: seeded change C20r5-A)
+				k = t.own[len(t.own)-1]
+				t.own = t.own[:len(t.own)-1]
+			}
 			sql = fmt.Sprintf("DELETE FROM %s WHERE k = %d;", crashTable, k)
 			wev = map[string]interface{}{"ev": "Write", "t": t.name, "op": "del", "k": k, "v": -1}
 		}
@@ -304,6 +323,43 @@ func crashRun(args []string) error {
 			tw.Close()
 			return false
 		}
+	}
+	if os.Getenv("VERIF_CRASH_MODE") == "big" {
+		// ONE transaction whose records do not fit into one log buffer: the record that finds the buffer full is appended
+		// behind a flush of the whole buffer (AppendLogRecord's second exit; seeded changes C08r2-A / C01r4-A), the commit
+		// record goes into the second buffer; then two small transactions
+		tw.Emit(map[string]interface{}{"ev": "ProbeFrom", "io0": rec.Len()})
+		t := begin()
+		for j := 0; j < 640+rng.Intn(40); j++ {
+			k := nextKey
+			nextKey++
+			version++
+			res, _ := e.ExecTxn(t.txn, fmt.Sprintf("INSERT INTO %s(k, v, p) VALUES (%d, %d, '%s');", crashTable, k, version, longPay[:850+rng.Intn(50)]))
+			if res.Res != "ok" {
+				return fmt.Errorf("big insert: %s", res.Res)
+			}
+			tw.Emit(map[string]interface{}{"ev": "Write", "t": t.name, "op": "ins", "k": k, "v": version})
+			liveKeys[k] = true
+		}
+		commit(t)
+		for i := 0; i < 2; i++ {
+			t2 := begin()
+			forceKind = 0
+			if stmt(t2) {
+				commit(t2)
+			}
+			forceKind = -1
+		}
+		tw.Emit(map[string]interface{}{"ev": "End", "ios": rec.Len()})
+		if err := tw.Close(); err != nil {
+			return err
+		}
+		f, err := os.Create(opsPath)
+		if err != nil {
+			return err
+		}
+		defer f.Close()
+		return gob.NewEncoder(f).Encode(rec.Snapshot())
 	}
 	if os.Getenv("VERIF_CRASH_MODE") == "wide" {
 		// a heap several times the pool, filled by committed transactions (not probed), then ONE transaction whose
